@@ -32,7 +32,7 @@ criterion, iteration limit.
 -/
 import CBV.Lemmas.C13
 import CBV.Lemmas.C13R6
-import CBV.Props.C17
+import CBV.Lemmas.C13C17
 import Mathlib.Data.List.Perm.Basic
 import Mathlib.Order.Basic
 import Mathlib.Algebra.Order.Ring.Int
@@ -379,7 +379,7 @@ example : Separated (1 / 100) [⟨0, 0, 0⟩, ⟨1, 0, 0⟩] := by
 
 /-- **On the line.** If clamp `j` is a `LineClamp` (C17's `lineClamp p1 p2 s`, `s` the length of `p2 − p1`), the
     clamped point of a consistent state is collinear with `p1, p2` and its parameter is its signed distance
-    from `p1` — `T_C13_on_manifold` with `T_C17_line_on` supplying the hypothesis. -/
+    from `p1` — `T_C13_on_manifold` with the statement of `T_C17_line_on` (re-proved in `Lemmas/C13C17.lean` from C17's model) supplying the hypothesis. -/
 theorem T_C13_on_line {cfg : Cfg V3 Rat} {n : Nat} {st : St V3 Rat} (hr : Rest cfg n st) {j idx : Nat}
     (hj : cfg.clampIdx[j]? = some idx) (p1 p2 : V3) (s : Rat) (hs : s ≠ 0)
     (hw : s * s = V3.dot (p2 - p1) (p2 - p1)) (hpos : cfg.pos j = C17.lineClamp p1 p2 s) :
@@ -388,7 +388,7 @@ theorem T_C13_on_line {cfg : Cfg V3 Rat} {n : Nat} {st : St V3 Rat} (hr : Rest c
   obtain ⟨t, ht⟩ := hr.prm_some hj
   have h := (hr.2.2 j idx t hj ht).1
   rw [hpos] at h
-  obtain ⟨h1, h2, _⟩ := C17.T_C17_line_on p1 p2 s t hs hw
+  obtain ⟨h1, h2⟩ := c17_line_on p1 p2 s t hs hw
   exact ⟨_, t, h, ht, h1, h2⟩
 
 /-- **Translation kept.** If link `l` is a `TranslationLink` (C17's `translationLink l0 f0`), follower − leader
@@ -399,7 +399,7 @@ theorem T_C13_links_translation {cfg : Cfg V3 Rat} {n : Nat} {st : St V3 Rat} (h
     ∃ x y, st.pts[idx]? = some x ∧ st.pts[l.follower]? = some y ∧ y - x = f0 - l0 := by
   obtain ⟨x, hx, hy⟩ := T_C13_links hr hj l hl hlead
   rw [hfn] at hy
-  exact ⟨x, _, hx, hy, C17.T_C17_translation l0 f0 x⟩
+  exact ⟨x, _, hx, hy, c17_translation l0 f0 x⟩
 
 /-! ### non-vacuity: a concrete instance satisfying every hypothesis used above, on which the
 optimiser really moves something, rolls back and skips.
@@ -564,7 +564,8 @@ theorem T_C13_tie_defaults :
     back-ports, the reporter's `undo / rollback / skip`, its fields and defaults, `IterationData.__init__`,
     `IterationDriver.__init__ / begin_iteration / end_iteration`, the caught exception class, the arguments of the
     `scipy.optimize.minimize` call, `sorted(…, reverse=True)` and the default arguments, as regenerated from the
-    current source (print / report statements and timing dropped), are the ones `Model/C13.lean` and
+    current source (print / report statements, timing, comments, docstrings and type annotations dropped, every local
+    name and parameter renamed `v0, v1, …` in order of first appearance, literals printed canonically), are the ones `Model/C13.lean` and
     `Model/C13Driver.lean` were written against. Any edit of these methods breaks this obligation. -/
 theorem T_C13_tie_statements :
     CBV.Gen.c13SrcReporterFields =
@@ -576,39 +577,39 @@ theorem T_C13_tie_statements :
     CBV.Gen.c13SrcReporterSkip =
       ["self.skipped = True", "self.undo()"] ∧
     CBV.Gen.c13SrcIterInit =
-      ["self.index = index", "self.initial_quality = initial_quality", "self.final_quality: float = VBIG"] ∧
+      ["self.index = v0", "self.initial_quality = v1", "self.final_quality = VBIG"] ∧
     CBV.Gen.c13SrcDriverInit =
-      ["self.max_iterations = max_iterations", "self.tolerance = tolerance", "self.iterations: List[IterationData] = []"] ∧
+      ["self.max_iterations = v0", "self.tolerance = v1", "self.iterations = []"] ∧
     CBV.Gen.c13SrcBeginIteration =
-      ["iteration = IterationData(len(self.iterations), quality)", "iteration.report_begin()", "self.iterations.append(iteration)", "return iteration"] ∧
+      ["v1 = IterationData(len(self.iterations), v0)", "v1.report_begin()", "self.iterations.append(v1)", "return v1"] ∧
     CBV.Gen.c13SrcEndIteration =
-      ["iteration = self.iterations[-1]", "iteration.final_quality = quality", "iteration.report_end()"] ∧
+      ["v1 = self.iterations[-1]", "v1.final_quality = v0", "v1.report_end()"] ∧
     CBV.Gen.c13SrcOptimizeClamp =
-      ["initial_params = copy.copy(clamp.params)", "junction = self.grid.get_junction_from_clamp(clamp)", "reporter = ClampOptimizationData(junction.index, self.grid.quality, junction.quality)", "reporter.report_start()", "def fquality(params):", "  clamp.update_params(params)", "  return self.grid.update(junction.index, clamp.position)", "try:", "  scipy.optimize.minimize(fquality, clamp.params, bounds=clamp.bounds, method=method)", "  reporter.junction_final = junction.quality", "  reporter.grid_final = self.grid.quality", "  if reporter.improvement <= 0:", "    reporter.rollback()", "    clamp.update_params(initial_params)", "    self.grid.update(junction.index, clamp.position)", "except ValueError:", "  reporter.skip()", "  clamp.update_params(initial_params)", "  self.grid.update(junction.index, clamp.position)", "reporter.report_end()"] ∧
+      ["v2 = copy.copy(v0.params)", "v3 = self.grid.get_junction_from_clamp(v0)", "v4 = ClampOptimizationData(v3.index, self.grid.quality, v3.quality)", "v4.report_start()", "def v5(v6):", "  v0.update_params(v6)", "  return self.grid.update(v3.index, v0.position)", "try:", "  scipy.optimize.minimize(v5, v0.params, bounds=v0.bounds, method=v1)", "  v4.junction_final = v3.quality", "  v4.grid_final = self.grid.quality", "  if v4.improvement <= 0:", "    v4.rollback()", "    v0.update_params(v2)", "    self.grid.update(v3.index, v0.position)", "except ValueError:", "  v4.skip()", "  v0.update_params(v2)", "  self.grid.update(v3.index, v0.position)", "v4.report_end()"] ∧
     CBV.Gen.c13SrcClampExcept =
       ["ValueError"] ∧
     CBV.Gen.c13SrcMinimizeArgs =
-      ["fquality", "clamp.params", "bounds=clamp.bounds", "method=method"] ∧
+      ["v5", "v0.params", "bounds=v0.bounds", "method=v1"] ∧
     CBV.Gen.c13SrcSensitivity =
-      ["junction = self.grid.get_junction_from_clamp(clamp)", "initial_params = copy.copy(clamp.params)", "def fquality(clamp, junction, params):", "  clamp.update_params(params)", "  self.grid.update(junction.index, clamp.position)", "  return junction.quality", "try:", "  sensitivities = np.asarray(scipy.optimize.approx_fprime(clamp.params, lambda p: fquality(clamp, junction, p), epsilon=10 * TOL))", "  sensitivity = np.linalg.norm(sensitivities)", "except ValueError:", "  sensitivity = 0", "clamp.update_params(initial_params)", "self.grid.update(junction.index, clamp.position)", "return sensitivity"] ∧
+      ["v1 = self.grid.get_junction_from_clamp(v0)", "v2 = copy.copy(v0.params)", "def v3(v0, v1, v4):", "  v0.update_params(v4)", "  self.grid.update(v1.index, v0.position)", "  return v1.quality", "try:", "  v5 = np.asarray(scipy.optimize.approx_fprime(v0.params, lambda v6: v3(v0, v1, v6), epsilon=10 * TOL))", "  v7 = np.linalg.norm(v5)", "except ValueError:", "  v7 = 0", "v0.update_params(v2)", "self.grid.update(v1.index, v0.position)", "return v7"] ∧
     CBV.Gen.c13SrcOptimizeIteration =
-      ["clamps = sorted(self.grid.clamps, key=lambda c: self._get_sensitivity(c), reverse=True)", "for clamp in clamps:", "  self.optimize_clamp(clamp, method)"] ∧
+      ["v1 = sorted(self.grid.clamps, key=lambda v2: self._get_sensitivity(v2), reverse=True)", "for v3 in v1:", "  self.optimize_clamp(v3, v0)"] ∧
     CBV.Gen.c13SrcSortedReverse =
       ["reverse=True"] ∧
     CBV.Gen.c13SrcOptimize =
-      ["driver = IterationDriver(max_iterations, tolerance)", "while not driver.converged:", "  driver.begin_iteration(self.grid.quality)", "  self.optimize_iteration(method)", "  driver.end_iteration(self.grid.quality)", "if self.report:", "  end_quality = driver.iterations[-1].final_quality", "  start_quality = driver.iterations[0].initial_quality", "  abs_improvement = start_quality - end_quality", "  rel_improvement = abs_improvement / start_quality", "self.backport()", "return driver"] ∧
+      ["v3 = IterationDriver(v0, v1)", "while not v3.converged:", "  v3.begin_iteration(self.grid.quality)", "  self.optimize_iteration(v2)", "  v3.end_iteration(self.grid.quality)", "if self.report:", "  v6 = v3.iterations[-1].final_quality", "  v7 = v3.iterations[0].initial_quality", "  v8 = v7 - v6", "  v9 = v8 / v7", "self.backport()", "return v3"] ∧
     CBV.Gen.c13SrcOptimizeDefaults =
       [("max_iterations", "20"), ("tolerance", "0.1"), ("method", "'SLSQP'")] ∧
     CBV.Gen.c13SrcAutoOptimizeDefaults =
       [("max_iterations", "20"), ("tolerance", "0.1"), ("method", "'SLSQP'")] ∧
     CBV.Gen.c13SrcGridUpdate =
-      ["self.points[index] = position", "junction = self.junctions[index]", "if len(junction.links) > 0:", "  for indexed_link in junction.links:", "    indexed_link.link.leader = position", "    indexed_link.link.update()", "    self.points[indexed_link.follower_index] = indexed_link.link.follower", "  return self.quality", "return junction.quality"] ∧
+      ["self.points[v0] = v1", "v2 = self.junctions[v0]", "if len(v2.links) > 0:", "  for v3 in v2.links:", "    v3.link.leader = v1", "    v3.link.update()", "    self.points[v3.follower_index] = v3.link.follower", "  return self.quality", "return v2.quality"] ∧
     CBV.Gen.c13SrcGridClamps =
-      ["clamps: List[ClampBase] = []", "for junction in self.junctions:", "  if junction.clamp is not None:", "    clamps.append(junction.clamp)", "return clamps"] ∧
+      ["v0 = []", "for v1 in self.junctions:", "  if v1.clamp is not None:", "    v0.append(v1.clamp)", "return v0"] ∧
     CBV.Gen.c13SrcJunctionFromClamp =
-      ["for junction in self.junctions:", "  if junction.clamp == clamp:", "    return junction", "raise NoJunctionError"] ∧
+      ["for v1 in self.junctions:", "  if v1.clamp == v0:", "    return v1", "raise NoJunctionError"] ∧
     CBV.Gen.c13SrcBackportMesh =
-      ["for (i, point) in enumerate(self.grid.points):", "  self.mesh.vertices[i].move_to(point)"] ∧
+      ["for (v0, v1) in enumerate(self.grid.points):", "  self.mesh.vertices[v0].move_to(v1)"] ∧
     CBV.Gen.c13SrcBackportSketch =
       ["self.sketch.update(self.grid.points)"] := by
   refine ⟨?_, ?_, ?_, ?_, ?_, ?_, ?_, ?_, ?_, ?_, ?_, ?_, ?_, ?_, ?_, ?_, ?_, ?_, ?_, ?_, ?_, ?_⟩ <;> rfl
